@@ -45,6 +45,20 @@ CLAIMS = {
         technique="contract-based deductive verification (z3 cell lemma + AST frame obligation) reducing all requests to a finite "
                   "quotient executed exhaustively on the real function; symbolic execution of generate_component against contracts",
         design_ref="DESIGN.md section 3 C18"),
+    'C20': dict(
+        text="Lock balance is proved for every method of both store classes on every path -- normal return, early return and every "
+             "exceptional exit -- with the lock modelled by ghost state and EVERY library call made inside a method (networkx, "
+             "networkx_query, list/len, logger, private helper) over-approximated by an unknown value that may also raise an arbitrary "
+             "exception (all fault sequences at once). A refuted obligation is replayed on the real store class by making the named "
+             "call raise and reading the real lock. Identifier allocation (ids fresh, counter ahead of all ids, exactly the incoming "
+             "nodes added) is checked as sequential postconditions on the bounded graph model; under mutual exclusion of "
+             "threading.Lock (trusted) critical sections are serialisable, which yields the concurrent half of the statement.",
+        note="Thread interleavings are not enumerated: the schedule quantifier is discharged by the lock-invariant argument, which "
+             "trusts threading.Lock and covers only operations that take the lock; loops over unknown collections are explored for "
+             "0..2 iterations (their bodies contain no lock operation). Id allocation part: bounded (graphs <= 3 nodes).",
+        technique="contract-based deductive verification with ghost lock state: exceptional postconditions on every path of the real "
+                  "AST under havocked, faulting library calls; native fault-injection replay",
+        design_ref="DESIGN.md section 3 C20"),
     'C16': dict(
         text="For every label field the real Labels._set_fields is proved, for all strings, to accept exactly the documented domain "
              "(published pattern matched against the whole string with CPython regex semantics incl. Unicode classes, plus the "
